@@ -42,6 +42,9 @@ CONST_ITEMS = [
     ("FLUSH_DEN", "compio-io/src/buffer.rs", r"^\s*len > cap \* \d+ / (\d+)\s*$"),
     ("FRAMED_RESERVE", "compio-io/src/framed/read.rs", r"\.reserve\((\d+)\)"),
     ("NOOP_MAX_SIZE", "compio-io/src/framed/frame.rs", r"^\s*Self \{ max_size: (\d+) \}"),
+    # C07: defaults of the managed buffer pool (ProactorBuilder::new)
+    ("POOL_DEFAULT_SIZE", "compio-driver/src/lib.rs", r"^\s*buffer_pool_size: (\d+),"),
+    ("POOL_DEFAULT_BUF_LEN", "compio-driver/src/lib.rs", r"^\s*buffer_pool_buffer_len: (\d+),"),
 ]
 
 
